@@ -90,6 +90,14 @@ def check(ctx):
             for ck in cl:
                 cb_ = Body(fx.fn(ck)); vals |= util.returned_values(cb_, D.Dag(cb_), 0)
             ctx.ob("R08.7", f"{k}|true-when-published", bool(cl) and vals == {("const", 1)}, site, f"the arm taken on the publication's Some answer returns {sorted(map(str, vals))}; required: true")
+        elif r0[0] == "call" and r0[1].split("::")[-1] in ("is_some_and", "is_ok_and", "map_or") and C01._mentions(r0, lambda x: x[0] == "call" and x[1].split("::")[-1] in PUBLISH):
+            # `publication.is_some_and(|len| { ..; true })` / `.map_or(false, |len| { ..; true })`: false when nothing was published by construction of the combinator
+            cl = [x[1] for x in C01._walk_all(r0) if isinstance(x, tuple) and x[:1] == ("closure",)]
+            vals = set()
+            for ck in cl:
+                cb_ = Body(fx.fn(ck)); vals |= util.returned_values(cb_, D.Dag(cb_), 0)
+            dflt_ok = r0[1].split("::")[-1] != "map_or" or strip_casts(r0[2][1]) == ("const", 0)
+            ctx.ob("R08.7", f"{k}|true-when-published", bool(cl) and vals == {("const", 1)} and dflt_ok, site, f"the closure run on the publication's Some answer returns {sorted(map(str, vals))}; required: true (and false otherwise)")
         else:
             consts = [st[2][1][1].get("int") for b in body.reachable for st in body.stmts(b) if st[0] == "A" and not st[1]["p"] and st[1]["l"] == 0 and st[2][0] == "Use" and st[2][1][0] == "k"]
             ctx.ob("R08.1", f"{k}|answer-after-publication", bool(pubs) and all(all(body.dominates(p, b) for p in pb) for b in body.reachable for st in body.stmts(b) if st[0] == "A" and not st[1]["p"] and st[1]["l"] == 0),
